@@ -100,8 +100,15 @@ def write_config(path, config):
         k = CONFIG_KEY[spare[len(config) % len(spare)]]
         v, c = config[0][1]
         lines += ["", "# disabled:", f'# SB_CONFIG_SUIT_MPI_{k}_VENDOR_NAME="{v}x"', f'# SB_CONFIG_SUIT_MPI_{k}_CLASS_NAME="{c}"']
-    with open(path, "w", encoding="utf-8") as fh:
-        fh.write("\n".join(lines) + "\n")
+    # line ends are LF or CR LF (a file written on, or checked out by, a Windows tool chain) - never part of a value
+    crlf = bool(config) and (len(config) + len(config[0][1][0]) + len(config[0][1][1])) % 2 == 1 and not any("\r" in x or "\n" in x for _, vc in config for x in vc)
+    WROTE["crlf" if crlf else "lf"] = WROTE.get("crlf" if crlf else "lf", 0) + 1
+    nl = "\r\n" if crlf else "\n"
+    with open(path, "w", encoding="utf-8", newline="") as fh:
+        fh.write(nl.join(lines) + nl)
+
+
+WROTE = {}
 
 
 def with_compid(desc, vendor, cls, pos, missing=False):
